@@ -75,6 +75,32 @@ Definition flat (tbl : atom_table) (u : unit_) : bool :=
   | _ => false
   end.
 
+Definition is_single_cor (c : cexpr) : bool := match c with COrE [_] => true | _ => false end.
+Definition is_cand (c : cexpr) : bool := match c with CAndE _ => true | _ => false end.
+Definition is_xand (e : expr) : bool := match e with XAnd _ => true | _ => false end.
+
+Fixpoint cpairs (c : cexpr) : list (nat * nat) :=
+  match c with
+  | CAtom a na => [(a, na)]
+  | CRaw _ _ => []
+  | CAndE l => flat_map cpairs l
+  | COrE l => flat_map cpairs l
+  | CNotE l => flat_map cpairs l
+  end.
+
+(* expression nests inside the theorem's domain: raw leaves that gorm parenthesises (or single
+   factors), non-empty And / Or, no single-operand clause.Or (gorm's OR marker) directly under
+   clause.And, clause.Not over one operand that is not a clause.And *)
+Fixpoint cdom (tbl : atom_table) (c : cexpr) : bool :=
+  match c with
+  | CAtom _ _ => true
+  | CRaw tmpl txt => detectable tbl tmpl txt
+  | CAndE l => match l with [] => false | _ => true end && forallb (fun x => cdom tbl x && negb (is_single_cor x)) l
+  | COrE l => match l with [] => false | _ => true end && forallb (cdom tbl) l
+  | CNotE l => match l with [x] => cdom tbl x && negb (is_cand x) | _ => false end
+  end.
+
+
 (* groups of Where/Or calls over domain units, Not only over flat units *)
 Fixpoint dom (tbl : atom_table) (u : unit_) : bool :=
   match u with
@@ -97,10 +123,12 @@ Proof. induction cs as [|[k u] r IH]; [reflexivity|]. cbn [calls_dom]. rewrite <
 (* negated atoms mean the Kleene negation of their atom *)
 Definition neg_pairs_ok (v : nat -> tv) (ms : list (nat * nat)) : Prop :=
   forall p, In p ms -> v (snd p) = tv_not (v (fst p)).
+Lemma neg_pairs_app v a b : neg_pairs_ok v (a ++ b) -> neg_pairs_ok v a /\ neg_pairs_ok v b.
+Proof. intros H. split; intros p Hp; apply H, in_or_app; auto. Qed.
 Fixpoint unit_pairs (u : unit_) : list (nat * nat) :=
   match u with
   | UMap ms | UStruct ms => ms
-  | UExpr (CAtom a na) => [(a, na)]
+  | UExpr c => cpairs c
   | UGroup cs => (fix go (l : list (ckind * unit_)) : list (nat * nat) :=
                     match l with [] => [] | (_, u') :: r => unit_pairs u' ++ go r end) cs
   | _ => []
@@ -281,6 +309,309 @@ Proof.
     exact (atoms_unit_result v [(a, na)] Hn).
 Qed.
 
+(* ---------- clause expression nests ---------- *)
+Section CExpr.
+Variable tbl : atom_table.
+Variable v : nat -> tv.
+
+Fixpoint cxs_top (l : list cexpr) : option (list expr) :=
+  match l with
+  | [] => Some []
+  | c :: r => match cx tbl c, cxs_top r with
+              | Some o, Some l' => Some (olist o ++ l')
+              | _, _ => None
+              end
+  end.
+Fixpoint csems_top (l : list cexpr) : option (list sem) :=
+  match l with
+  | [] => Some []
+  | c :: r => match csem tbl c, csems_top r with Some s, Some l' => Some (s :: l') | _, _ => None end
+  end.
+
+Lemma cx_and l : cx tbl (CAndE l) = match cxs_top l with Some l' => Some (mk_and l') | None => None end.
+Proof.
+  cbn [cx]. replace ((fix cxs (l0 : list cexpr) : option (list expr) :=
+     match l0 with
+     | [] => Some []
+     | c :: r => match cx tbl c with
+                 | Some o => match cxs r with Some l' => Some (olist o ++ l') | None => None end
+                 | None => None
+                 end
+     end) l) with (cxs_top l); [reflexivity|].
+  induction l as [|c r IH]; [reflexivity|]. cbn [cxs_top]. rewrite IH. reflexivity.
+Qed.
+Lemma cx_or l : cx tbl (COrE l) = match cxs_top l with Some l' => Some (mk_or l') | None => None end.
+Proof.
+  cbn [cx]. replace ((fix cxs (l0 : list cexpr) : option (list expr) :=
+     match l0 with
+     | [] => Some []
+     | c :: r => match cx tbl c with
+                 | Some o => match cxs r with Some l' => Some (olist o ++ l') | None => None end
+                 | None => None
+                 end
+     end) l) with (cxs_top l); [reflexivity|].
+  induction l as [|c r IH]; [reflexivity|]. cbn [cxs_top]. rewrite IH. reflexivity.
+Qed.
+Lemma cx_not l : cx tbl (CNotE l) = match cxs_top l with Some l' => Some (mk_not l') | None => None end.
+Proof.
+  cbn [cx]. replace ((fix cxs (l0 : list cexpr) : option (list expr) :=
+     match l0 with
+     | [] => Some []
+     | c :: r => match cx tbl c with
+                 | Some o => match cxs r with Some l' => Some (olist o ++ l') | None => None end
+                 | None => None
+                 end
+     end) l) with (cxs_top l); [reflexivity|].
+  induction l as [|c r IH]; [reflexivity|]. cbn [cxs_top]. rewrite IH. reflexivity.
+Qed.
+
+Lemma csem_and l : csem tbl (CAndE l) = match csems_top l with Some l' => Some (SAnd l') | None => None end.
+Proof.
+  cbn [csem]. replace ((fix csems (l0 : list cexpr) : option (list sem) :=
+     match l0 with
+     | [] => Some []
+     | c :: r => match csem tbl c with
+                 | Some s => match csems r with Some l' => Some (s :: l') | None => None end
+                 | None => None
+                 end
+     end) l) with (csems_top l); [reflexivity|].
+  induction l as [|c r IH]; [reflexivity|]. cbn [csems_top]. rewrite IH. reflexivity.
+Qed.
+Lemma csem_or l : csem tbl (COrE l) = match csems_top l with Some l' => Some (SOr l') | None => None end.
+Proof.
+  cbn [csem]. replace ((fix csems (l0 : list cexpr) : option (list sem) :=
+     match l0 with
+     | [] => Some []
+     | c :: r => match csem tbl c with
+                 | Some s => match csems r with Some l' => Some (s :: l') | None => None end
+                 | None => None
+                 end
+     end) l) with (csems_top l); [reflexivity|].
+  induction l as [|c r IH]; [reflexivity|]. cbn [csems_top]. rewrite IH. reflexivity.
+Qed.
+Lemma csems_fix l : (fix csems (l0 : list cexpr) : option (list sem) :=
+     match l0 with
+     | [] => Some []
+     | c :: r => match csem tbl c with
+                 | Some s => match csems r with Some l' => Some (s :: l') | None => None end
+                 | None => None
+                 end
+     end) l = csems_top l.
+Proof. induction l as [|c r IH]; [reflexivity|]. cbn [csems_top]. rewrite IH. reflexivity. Qed.
+
+Lemma csem_not1 x : is_cand x = false ->
+  csem tbl (CNotE [x]) = match csem tbl x with Some s => Some (SNot s) | None => None end.
+Proof.
+  intros Hx.
+  assert (H : csem tbl (CNotE [x]) = match csems_top [x] with
+                                     | Some [s] => Some (SNot s)
+                                     | Some l' => Some (SAnd (map SNot l'))
+                                     | None => None
+                                     end).
+  { destruct x as [a na|tmpl txt|l|l|l]; try discriminate; cbn [csem csems_top]; rewrite ?csems_fix;
+    repeat match goal with |- context [match ?X with _ => _ end] =>
+      lazymatch X with context [match _ with _ => _ end] => fail | _ => destruct X end end; reflexivity. }
+  rewrite H. cbn [csems_top]. destruct (csem tbl x); reflexivity.
+Qed.
+
+Section CexprInd.
+  Variable P : cexpr -> Prop.
+  Hypothesis Hatom : forall a na, P (CAtom a na).
+  Hypothesis Hraw : forall t x, P (CRaw t x).
+  Hypothesis Hand : forall l, Forall P l -> P (CAndE l).
+  Hypothesis Hor : forall l, Forall P l -> P (COrE l).
+  Hypothesis Hnot : forall l, Forall P l -> P (CNotE l).
+  Fixpoint cexpr_ind' (c : cexpr) : P c :=
+    let go := fix go (l : list cexpr) : Forall P l :=
+      match l with [] => Forall_nil _ | e :: r => Forall_cons e (cexpr_ind' e) (go r) end in
+    match c with
+    | CAtom a na => Hatom a na
+    | CRaw t x => Hraw t x
+    | CAndE l => Hand l (go l)
+    | COrE l => Hor l (go l)
+    | CNotE l => Hnot l (go l)
+    end.
+End CexprInd.
+
+(* what holds of the expression a nest builds *)
+Definition Pc (c : cexpr) : Prop :=
+  cdom tbl c = true -> neg_pairs_ok v (cpairs c) ->
+  exists e s, cx tbl c = Some (Some e) /\ csem tbl c = Some s /\
+    okx e = true /\ closedx e = true /\ dx v e = sev v s /\
+    is_single_or e = is_single_cor c /\ first_ok v e /\
+    (is_cand c = false -> is_xand e = false).
+
+(* members of a list, all satisfying [Pc] *)
+Definition Rm (e : expr) (s : sem) : Prop :=
+  okx e = true /\ closedx e = true /\ dx v e = sev v s.
+
+Lemma members l : Forall Pc l -> forallb (cdom tbl) l = true -> neg_pairs_ok v (flat_map cpairs l) ->
+  exists es ss, cxs_top l = Some es /\ csems_top l = Some ss /\ Forall2 Rm es ss /\
+    Forall2 (fun c e => is_single_or e = is_single_cor c /\ first_ok v e /\ (is_cand c = false -> is_xand e = false)) l es.
+Proof.
+  induction 1 as [|c r Hc _ IH]; intros Hd Hn.
+  - exists [], []. repeat split; constructor.
+  - cbn [forallb] in Hd. apply andb_prop in Hd. destruct Hd as [Hdc Hdr].
+    cbn [flat_map] in Hn. apply neg_pairs_app in Hn. destruct Hn as [Hnc Hnr].
+    destruct (Hc Hdc Hnc) as (e & s & Hx & Hs & H1 & H2 & H3 & H4 & H5 & H6).
+    destruct (IH Hdr Hnr) as (es & ss & Hxs & Hss & HR & HF).
+    exists (e :: es), (s :: ss). cbn [cxs_top csems_top]. rewrite Hx, Hs, Hxs, Hss. cbn [olist app].
+    repeat split; constructor; try assumption; repeat split; assumption.
+Qed.
+
+Lemma Rm_oksL es ss : Forall2 Rm es ss -> oksL es = true.
+Proof. induction 1 as [|e s es ss [H1 [H2 _]] _ IH]; [reflexivity|]. cbn. rewrite H1, H2, IH. reflexivity. Qed.
+
+Lemma pe_all_and : forall es ss, Forall2 Rm es ss -> forallb (fun e => negb (is_single_or e)) es = true ->
+  forall acc, pe (map (fun e => (is_single_or e, dx v e)) es) acc = tv_and acc (sev v (SAnd ss)).
+Proof.
+  induction 1 as [|e s es ss [_ [_ Hd]] _ IH]; intros Hf acc.
+  - cbn. symmetry. apply tv_and_TT_r.
+  - cbn [forallb] in Hf. apply andb_prop in Hf. destruct Hf as [He Hr]. apply negb_true_iff in He.
+    cbn [map pe]. rewrite He, Hd, (IH Hr). cbn [sev map fold_right]. rewrite tv_and_assoc. reflexivity.
+Qed.
+Lemma val_all_and es ss : Forall2 Rm es ss -> forallb (fun e => negb (is_single_or e)) es = true ->
+  es <> [] -> val_list v es = sev v (SAnd ss).
+Proof.
+  intros H Hf Hne. destruct H as [|e s es ss [_ [_ Hd]] Hr]; [congruence|].
+  cbn [forallb] in Hf. apply andb_prop in Hf. destruct Hf as [_ Hf].
+  cbn [val_list]. rewrite (pe_all_and es ss Hr Hf), Hd. reflexivity.
+Qed.
+Lemma evE_orsE es ss : Forall2 Rm es ss -> evE v (orsE es) = sev v (SOr ss).
+Proof.
+  induction 1 as [|e s es ss [_ [Hc Hd]] _ IH]; [reflexivity|].
+  cbn [orsE]. rewrite evE_cons, evT_single, (evF_item v e Hc), Hd, IH. reflexivity.
+Qed.
+
+Lemma all_cexpr : forall c, Pc c.
+Proof.
+  induction c as [a na|tmpl txt|l IH|l IH|l IH] using cexpr_ind'; intros Hd Hn.
+  - (* atom *)
+    exists (XAtom a na), (SAtom a). repeat split; try reflexivity.
+    + apply dx_atom.
+    + exact (Hn (a, na) (or_introl eq_refl)).
+  - (* raw *)
+    cbn [cdom] in Hd. pose proof Hd as Hdet. unfold detectable in Hdet.
+    destruct (lex tbl txt) as [ts|] eqn:El; [|discriminate].
+    destruct (parse ts) as [et|] eqn:Ep; [|discriminate].
+    exists (XRaw (wrap_test tmpl) ts), (sem_of_E et).
+    assert (HtoE : toE (XRaw (wrap_test tmpl) ts) = et) by (cbn; unfold raw_tree; rewrite Ep; reflexivity).
+    repeat split; try reflexivity.
+    + cbn [cx]. rewrite El. reflexivity.
+    + cbn [csem]. rewrite El, Ep. reflexivity.
+    + cbn. rewrite Ep. reflexivity.
+    + unfold closedx. rewrite HtoE. exact Hdet.
+    + unfold dx. rewrite HtoE. apply evE_sem.
+  - (* And *)
+    cbn [cdom] in Hd. apply andb_prop in Hd. destruct Hd as [Hne Hall].
+    assert (Hdom : forallb (cdom tbl) l = true).
+    { clear -Hall. induction l as [|x r IHr]; [reflexivity|]. cbn in *. apply andb_prop in Hall. destruct Hall as [Hx Hr].
+      apply andb_prop in Hx. destruct Hx as [Hx _]. rewrite Hx, (IHr Hr). reflexivity. }
+    assert (Hnsc : forallb (fun x => negb (is_single_cor x)) l = true).
+    { clear -Hall. induction l as [|x r IHr]; [reflexivity|]. cbn in *. apply andb_prop in Hall. destruct Hall as [Hx Hr].
+      apply andb_prop in Hx. destruct Hx as [_ Hx]. rewrite Hx, (IHr Hr). reflexivity. }
+    cbn [cpairs] in Hn.
+    destruct (members l IH Hdom Hn) as (es & ss & Hxs & Hss & HR & HF).
+    assert (Hnso : forallb (fun e => negb (is_single_or e)) es = true).
+    { clear -HF Hnsc. induction HF as [|c e l es [H1 _] _ IHf]; [reflexivity|]. cbn in *.
+      apply andb_prop in Hnsc. destruct Hnsc as [Hc Hr]. rewrite H1, Hc, (IHf Hr). reflexivity. }
+    rewrite cx_and, csem_and, Hxs, Hss.
+    destruct HR as [|e1 s1 es' ss' He1 HR']; [destruct l; [discriminate|inversion HF]|].
+    destruct HR' as [|e2 s2 es'' ss'' He2 HR''].
+    + (* one member *)
+      destruct He1 as [Hok [Hcl Hdx]].
+      assert (Hso : is_single_or e1 = false).
+      { cbn in Hnso. rewrite andb_true_r in Hnso. apply negb_true_iff in Hnso. exact Hnso. }
+      assert (Hsev : sev v (SAnd [s1]) = sev v s1) by (cbn; apply tv_and_TT_r).
+      cbn [mk_and]. destruct (is_or e1) eqn:Eor.
+      * exists (XAnd [e1]), (SAnd [s1]).
+        split; [reflexivity|]. split; [reflexivity|]. split; [rewrite okx_and; exact Hok|].
+        split; [exact Hcl|]. split; [rewrite dx_and_single, Hsev; exact Hdx|].
+        split; [reflexivity|]. split; [exact Hso|]. intros; discriminate.
+      * exists e1, (SAnd [s1]). inversion HF as [|c0 e0 l0 es0 [Hf1 [Hf2 Hf3]] HF0]; subst.
+        split; [reflexivity|]. split; [reflexivity|]. split; [exact Hok|].
+        split; [exact Hcl|]. split; [rewrite Hsev; exact Hdx|].
+        split; [exact Hso|]. split; [exact Hf2|]. intros; discriminate.
+    + (* several members *)
+      set (es := e1 :: e2 :: es'') in *. set (ss := s1 :: s2 :: ss'') in *.
+      assert (HRall : Forall2 Rm es ss) by (constructor; [exact He1|constructor; [exact He2|exact HR'']]).
+      exists (XAnd es), (SAnd ss).
+      split; [reflexivity|]. split; [reflexivity|].
+      split; [rewrite okx_and; exact (Rm_oksL es ss HRall)|].
+      split; [unfold closedx; rewrite toE_and; apply orb_true_r|].
+      split; [rewrite dx_and by (try exact (Rm_oksL es ss HRall); reflexivity);
+              apply val_all_and; [exact HRall|exact Hnso|discriminate]|].
+      split; [reflexivity|].
+      split; [cbn in Hnso; apply andb_prop in Hnso; destruct Hnso as [H1 _]; apply negb_true_iff in H1; exact H1|].
+      intros; discriminate.
+  - (* Or *)
+    cbn [cdom] in Hd. apply andb_prop in Hd. destruct Hd as [Hne Hdom].
+    cbn [cpairs] in Hn.
+    destruct (members l IH Hdom Hn) as (es & ss & Hxs & Hss & HR & HF).
+    rewrite cx_or, csem_or, Hxs, Hss.
+    destruct HR as [|e1 s1 es' ss' He1 HR']; [destruct l; [discriminate|inversion HF]|].
+    destruct HR' as [|e2 s2 es'' ss'' He2 HR''].
+    + destruct He1 as [Hok [Hcl Hdx]].
+      exists (XOr [e1]), (SOr [s1]). inversion HF as [|c0 e0 l0 es0 _ HF0]; subst. inversion HF0; subst.
+      split; [reflexivity|]. split; [reflexivity|]. split; [rewrite okx_or; exact Hok|].
+      split; [exact Hcl|]. split; [rewrite dx_or_single, Hdx; cbn; symmetry; apply tv_or_TF_r|].
+      split; [reflexivity|]. split; [exact I|]. intros _; reflexivity.
+    + set (es := e1 :: e2 :: es'') in *. set (ss := s1 :: s2 :: ss'') in *.
+      assert (HRall : Forall2 Rm es ss) by (constructor; [exact He1|constructor; [exact He2|exact HR'']]).
+      exists (XOr es), (SOr ss).
+      assert (Hl : exists c1 c2 r, l = c1 :: c2 :: r).
+      { inversion HF as [|c1 ? l1 ? _ HF1]; subst. inversion HF1 as [|c2 ? l2 ? _ HF2]; subst. eauto. }
+      destruct Hl as (c1 & c2 & r & ->).
+      split; [reflexivity|]. split; [reflexivity|].
+      split; [rewrite okx_or; exact (Rm_oksL es ss HRall)|].
+      split; [unfold closedx; rewrite toE_or; apply orb_true_r|].
+      split; [unfold dx; rewrite toE_or; unfold es at 1; rewrite evE_single, evT_single, evF_par; exact (evE_orsE es ss HRall)|].
+      split; [reflexivity|]. split; [exact I|]. intros _; reflexivity.
+  - (* Not *)
+    cbn [cdom] in Hd. destruct l as [|x [|y r]]; try discriminate.
+    apply andb_prop in Hd. destruct Hd as [Hdx Hnc]. apply negb_true_iff in Hnc.
+    cbn [cpairs flat_map] in Hn. rewrite app_nil_r in Hn.
+    inversion IH as [|? ? Hx _]; subst.
+    destruct (Hx Hdx Hn) as (e & s & Hcx & Hcs & Hok & Hcl & Hdv & Hso & Hfo & Hxa).
+    specialize (Hxa Hnc).
+    rewrite cx_not, (csem_not1 x Hnc), Hcs. cbn [cxs_top]. rewrite Hcx. cbn [olist app].
+    assert (Hmk : mk_not [e] = Some (XNot [e])) by (destruct e; try reflexivity; discriminate).
+    rewrite Hmk. exists (XNot [e]), (SNot s).
+    destruct (is_atom e) eqn:Ea.
+    + destruct e as [a na| | | | |]; try discriminate. cbn [first_ok] in Hfo.
+      split; [reflexivity|]. split; [reflexivity|]. split; [reflexivity|]. split; [reflexivity|].
+      split; [unfold dx; rewrite toE_not; cbn; rewrite Hfo; rewrite <- Hdv; rewrite dx_atom; destruct (v a); reflexivity|].
+      split; [reflexivity|]. split; [exact I|]. intros _; reflexivity.
+    + assert (Hna : existsb is_atom [e] = false) by (cbn; rewrite Ea; reflexivity).
+      destruct (not_single_raw v e Hok Hcl Hna) as [H1 [H2 H3]].
+      split; [reflexivity|]. split; [reflexivity|]. split; [exact H1|]. split; [exact H2|].
+      split; [rewrite H3, Hdv; reflexivity|].
+      split; [reflexivity|]. split; [exact I|]. intros _; reflexivity.
+Qed.
+End CExpr.
+
+(* a clause expression nest given to Where / Or (not to the chain method Not) *)
+Definition unit_res0 (v : nat -> tv) (conds : list expr) (mm : option (sem * sem)) : Prop :=
+  exists e m n, conds = [e] /\ mm = Some (m, n) /\
+    okx e = true /\ closedx e = true /\ is_or e = false /\ first_ok v e /\ dx v e = sev v m.
+
+Lemma expr_unit v tbl c conds mm :
+  cdom tbl c = true -> is_single_cor c = false -> neg_pairs_ok v (cpairs c) ->
+  build_cond tbl (UExpr c) = Some conds -> umean tbl (UExpr c) = Some mm -> unit_res0 v conds mm.
+Proof.
+  intros Hd Hs Hn Hb Hm.
+  destruct (all_cexpr tbl v c Hd Hn) as (e & s & Hcx & Hcs & Hok & Hcl & Hdx & Hso & Hfo & _).
+  cbn [build_cond] in Hb. rewrite Hcx in Hb. cbn [olist mk_and] in Hb.
+  cbn [umean] in Hm. rewrite Hcs in Hm. inversion Hm; subst mm; clear Hm.
+  rewrite Hs in Hso.
+  destruct (is_or e) eqn:Eor; cbn [olist] in Hb; inversion Hb; subst conds; clear Hb.
+  - eexists (XAnd [e]), s, _. split; [reflexivity|]. split; [reflexivity|].
+    split; [rewrite okx_and; exact Hok|]. split; [exact Hcl|]. split; [reflexivity|].
+    split; [exact Hso|]. rewrite dx_and_single. exact Hdx.
+  - eexists e, s, _. split; [reflexivity|]. split; [reflexivity|].
+    split; [exact Hok|]. split; [exact Hcl|]. split; [exact Eor|]. split; [exact Hfo|]. exact Hdx.
+Qed.
+
 (* ---------- groups and chains ---------- *)
 Lemma build_cond_group tbl cs :
   build_cond tbl (UGroup cs) =
@@ -384,6 +715,7 @@ Fixpoint domx (tbl : atom_table) (u : unit_) : bool :=
        | [] => true
        | (k, u') :: r => domx tbl u' && (match k with KNot => negatable tbl u' | _ => true end) && go r
        end) cs
+  | UExpr c => flat tbl u || (cdom tbl c && negb (is_single_cor c))
   | _ => flat tbl u
   end.
 Fixpoint calls_domx (tbl : atom_table) (cs : list call) : bool :=
@@ -407,8 +739,6 @@ Definition Punit (v : nat -> tv) (tbl : atom_table) (u : unit_) : Prop :=
   forall conds mm, domx tbl u = true -> neg_pairs_ok v (unit_pairs u) ->
   build_cond tbl u = Some conds -> umean tbl u = Some mm -> unit_res v (negatable tbl u) conds mm.
 
-Lemma neg_pairs_app v a b : neg_pairs_ok v (a ++ b) -> neg_pairs_ok v a /\ neg_pairs_ok v b.
-Proof. intros H. split; intros p Hp; apply H, in_or_app; auto. Qed.
 
 Lemma closedx_single_or e : closedx (XOr [e]) = closedx e.
 Proof. reflexivity. Qed.
@@ -498,7 +828,14 @@ Qed.
 Lemma all_units v tbl : forall u, Punit v tbl u.
 Proof.
   induction u as [tmpl txt|tmpl txt|ms|ms|c|cs IH] using unit_ind'; intros conds mm Hd Hn Hb Hm;
-    [apply flat_to_res; eapply flat_unit; [exact Hd|exact Hn|exact Hb|exact Hm] ..|].
+    [apply flat_to_res; eapply flat_unit; [exact Hd|exact Hn|exact Hb|exact Hm] .. | |].
+  { (* clause expression *)
+    cbn [domx] in Hd. destruct (flat tbl (UExpr c)) eqn:Ef.
+    - apply flat_to_res; eapply flat_unit; [exact Ef|exact Hn|exact Hb|exact Hm].
+    - cbn [orb] in Hd. apply andb_prop in Hd. destruct Hd as [Hd Hs]. apply negb_true_iff in Hs.
+      destruct (expr_unit v tbl c conds mm Hd Hs Hn Hb Hm) as (e & m & n & -> & -> & H1 & H2 & H3 & H4 & H5).
+      right. exists e, m, n. repeat split; try assumption.
+      cbn [negatable]. rewrite Ef. discriminate. }
   (* group *)
   rewrite domx_group in Hd. apply andb_prop in Hd. destruct Hd as [Hfirst Hd].
   rewrite unit_pairs_group in Hn. rewrite build_cond_group in Hb. rewrite umean_group in Hm.
